@@ -275,7 +275,11 @@ func decodeFrameForAnimation(bitstreamData, alphaData []byte) (*image.NRGBA, err
 	if isLossless {
 		img, err = decodeLossless(bitstreamData)
 	} else {
-		img, err = decodeLossy(bitstreamData, alphaData)
+		// Always through the NRGBA builder (WebP's own YUV->RGB conversion with
+		// fancy upsampling, alpha 255 when there is no ALPH data): a frame
+		// without alpha must get the same colours as one with alpha, not the
+		// full-range JFIF reading of its studio-range planes.
+		return decodeLossyNRGBA(bitstreamData, alphaData)
 	}
 	if err != nil {
 		return nil, err
@@ -367,6 +371,24 @@ func decodeLossy(data []byte, alphaData []byte) (image.Image, error) {
 	}
 
 	// Slow path: alpha present → NRGBA with fancy chroma upsampling.
+	return buildNRGBA(width, height, yPlane, yStride, uPlane, vPlane, uvStride, alphaPlane), nil
+}
+
+// decodeLossyNRGBA decodes a VP8 bitstream (with optional ALPH data) to
+// *image.NRGBA, whether or not alpha is present.
+func decodeLossyNRGBA(data []byte, alphaData []byte) (*image.NRGBA, error) {
+	dec, width, height, yPlane, yStride, uPlane, vPlane, uvStride, err := lossy.DecodeFrame(data)
+	if err != nil {
+		return nil, fmt.Errorf("webp: lossy decode: %w", err)
+	}
+	defer lossy.ReleaseDecoder(dec)
+	var alphaPlane []byte
+	if len(alphaData) > 0 {
+		alphaPlane, err = lossy.DecodeAlpha(alphaData, width, height)
+		if err != nil {
+			return nil, fmt.Errorf("webp: alpha decode: %w", err)
+		}
+	}
 	return buildNRGBA(width, height, yPlane, yStride, uPlane, vPlane, uvStride, alphaPlane), nil
 }
 
